@@ -159,14 +159,26 @@ theorem windows_roundtrip (ar : Arch) :
     parsePlatform (Platform.str ⟨.windows, ar⟩) = .ok ⟨.windows, ar⟩ := by
   cases ar <;> decide
 
+/-- the documented families of the claim (BSD / Haiku / generic names are outside it) -/
+def documented : Os → Bool
+  | .unordered _ _ => false
+  | _ => true
+
 /-- **`Platform.parse(str(p)) == p`** for every platform of the documented families, every `X_Y` -/
-theorem platform_roundtrip (p : Platform) : parsePlatform p.str = .ok p := by
+theorem platform_roundtrip (p : Platform) (hd : documented p.os = true) : parsePlatform p.str = .ok p := by
   rcases p with ⟨os, ar⟩
   cases os with
   | manylinux a b => exact manylinux_roundtrip a b ar
   | musllinux a b => exact musllinux_roundtrip a b ar
   | windows => exact windows_roundtrip ar
   | macos a b => exact macos_roundtrip a b ar
+  | unordered c r => cases hd
+
+/-- outside the documented families the round trip is false of the code: `OpenBsd` has no `__str__`, so the
+    release is not printed (`openbsd_7_x86_64` prints as `openbsd_x86_64`, which does not parse back) -/
+theorem openbsd_no_roundtrip :
+    parsePlatform (Platform.str ⟨.unordered "openbsd" "7", .x86_64⟩) ≠ .ok ⟨.unordered "openbsd" "7", .x86_64⟩ := by
+  decide
 
 end C18
 end DepLogic
